@@ -5,6 +5,7 @@ import Ekit.Props.C06Heap
 import Ekit.Props.C06Rev
 import Driver.Ev.CLQSoundC06
 import Driver.Ev.LockWrappedSoundC06
+import Driver.Ev.CPQSoundC06
 open Ekit.Props.C06
 #print axioms c06_clq_linearizable
 #print axioms c06_clq_invariants
@@ -123,3 +124,18 @@ example : @Driver.Ev.CPQ.rawParams = @Ekit.Props.C06.rawParams := rfl
 #print axioms Driver.Ev.CList.c06_clist_evtrace_invariants
 #print axioms Driver.Ev.CPQ.event_cpq
 #print axioms Driver.Ev.CPQ.cpq_replay_prun_partial
+-- cpq in full: one growth oracle glued from the per-event ones (Driver/Ev/CPQSoundC06.lean)
+#print axioms Driver.Ev.LW.run_unmap
+#print axioms Driver.Ev.CPQ.heap_step_view
+#print axioms Driver.Ev.CPQ.abstracts
+#print axioms Driver.Ev.CPQ.cpq_replay_abs_sound
+#print axioms Driver.Ev.CPQ.cpq_replay_any_oracle
+#print axioms Driver.Ev.CPQ.step_local
+#print axioms Driver.Ev.CPQ.run_local
+#print axioms Driver.Ev.CPQ.prun_glue
+#print axioms Driver.Ev.CPQ.cpq_replay_sound
+#print axioms Driver.Ev.CPQ.cpq_replay_reachable
+#print axioms Driver.Ev.CPQ.init_lawful
+#print axioms Driver.Ev.CPQ.c06_cpq_evtrace_linearizable
+#print axioms Driver.Ev.CPQ.c06_cpq_evtrace_invariants
+#print axioms Driver.Ev.CPQ.c06_cpq_evtrace_heap_wf
